@@ -1,5 +1,5 @@
 (* C08 — the statements about the modelled grids per level / per dimension / tensorised, and the verified checkers. *)
-From Coq Require Import ZArith List QArith Qabs Qcanon Bool Arith Lia Lra.
+From Coq Require Import ZArith List QArith Qabs Qcanon Bool Arith Lia Lqa.
 From SG Require Import Base.QcUtil Model.Tensor Model.LocalGrids Proofs.TensorRule Proofs.LocalGridsBase
   Proofs.LocalGridsTrap Proofs.LocalGridsSimpson.
 Import ListNotations.
